@@ -56,6 +56,7 @@ class Executor:
         self._feas_cache: Dict[Any, bool] = {}
         self.index_ctx: List[Any] = []
         self.skolems: List[Any] = []
+        self.len_symbols: List[Any] = []
         self._keep: List[Any] = []
 
     # ------------------------------------------------------------------------------------------------ utilities
@@ -761,7 +762,12 @@ class Executor:
         if isinstance(a, SV) and isinstance(b, SV):
             return a.t == b.t
         if isinstance(a, Ref) and isinstance(b, Ref):
-            return z3.BoolVal(a.oid == b.oid)
+            if a.oid == b.oid:
+                return z3.BoolVal(True)
+            oa, ob = st.heap.get(a.oid), st.heap.get(b.oid)
+            if isinstance(oa, Obj) and isinstance(ob, Obj) and oa.ident is not None and ob.ident is not None:
+                return oa.ident == ob.ident  # elements of symbolic sequences: identity = symbolic identity
+            return z3.BoolVal(False)
         if isinstance(a, ClassV) and isinstance(b, ClassV):
             return z3.BoolVal(a.name == b.name)
         return z3.BoolVal(a is b)
